@@ -648,6 +648,22 @@ class Harness:
             if snap2 != final:
                 v6("c06.mid_state", "second_callback_state", "%s: inside async_update_records_complete: %s" % (where, diff_states(final, snap2)),
                    diff=diff_kind(final, snap2))
+        # listeners whose registration changed inside the first round (from a listener's async_update_records): the second
+        # round goes to whoever is registered when it happens - one removed meanwhile is not called again, one added
+        # meanwhile is called exactly once
+        if updates:
+            for s in self.spies:
+                sid = id(s)
+                if (sid in self.removed_during) == (sid in self.added_during):
+                    continue
+                comps = [c for c in s.calls if c[0] == "complete"]
+                res.mon("c06.contract.churn")
+                if sid in self.removed_during and comps:
+                    v6("c06.contract", "complete_after_removal", "%s: a listener removed during the first round of this datagram got %d "
+                       "async_update_records_complete call(s) after async_remove_listener had returned" % (where, len(comps)), who="removed")
+                if sid in self.added_during and len(comps) != 1:
+                    v6("c06.contract", "added_listener_not_completed", "%s: a listener registered during the first round of this datagram got %d "
+                       "async_update_records_complete calls (expected 1: it is registered when the second round happens)" % (where, len(comps)), who="added")
         res.cls("listeners", "n=%d" % len(at_start), "removed=%d" % len(self.removed_during), "added=%d" % len(self.added_during))
 
     def classify_dgram(self, recs, pre, now) -> None:
